@@ -246,6 +246,34 @@ func runC02(c *Ctx) {
 			decode(c, n.CashAddressPrefix[:i]+"\u017f"+n.CashAddressPrefix[i+1:]+":"+body, net)
 		}
 	}
+	// byte-level aliases: a character replaced by a byte that a sloppy normalisation maps onto it (bit 5 cleared or
+	// set: 'q' -> 'Q' is case folding, but '2' -> 0x12 and 'q' -> 0x11+... are not; bit 7 set; bit 6 flipped)
+	for k := 0; k < c.Pick(40, 400); k++ {
+		net := 1 + k%len(nets)
+		n := nets[net-1]
+		ver := []byte{0, 8}[k%2]
+		body := refCashString(n.CashAddressPrefix, refTo5(append([]byte{ver}, randBytes(r, 20)...), 0))
+		for tries := 0; tries < 6; tries++ {
+			i := r.Intn(len(body))
+			if tries < 3 { // aim at digits: '0'..'9' &^ 0x20 are control bytes
+				for j := 0; j < len(body); j++ {
+					if body[(i+j)%len(body)] >= '0' && body[(i+j)%len(body)] <= '9' {
+						i = (i + j) % len(body)
+						break
+					}
+				}
+			}
+			for _, alias := range []byte{body[i] &^ 0x20, body[i] | 0x80, body[i] ^ 0x40, body[i] ^ 0x10} {
+				if alias == body[i] || (alias >= 'A' && alias <= 'Z') {
+					continue
+				}
+				t := body[:i] + string([]byte{alias}) + body[i+1:]
+				decode(c, t, net)
+				decode(c, n.CashAddressPrefix+":"+t, net)
+				decode(c, strings.ToUpper(body[:i])+string([]byte{alias})+strings.ToUpper(body[i+1:]), net)
+			}
+		}
+	}
 	// an extra symbol / a missing symbol with a valid checksum (wrong payload length in symbols)
 	for k := 0; k < c.Pick(60, 600); k++ {
 		ver := []byte{0, 8, 0x0b}[k%3]
@@ -489,6 +517,9 @@ func runC03(c *Ctx) {
 		if k%50 == 0 {
 			c.Add(e)
 			b32dec(c, s)
+		}
+		if k%8 == 0 { // substitutions by characters that Unicode case mapping folds onto letters of the string
+			b32Lookalikes(c, s)
 		}
 		m := []byte(s)
 		dl := len(m) - len(hrp) - 1
